@@ -28,7 +28,9 @@ def classified : List ((String × String × String × String) × String) := [
   (("internal/ebnf/parser/spec/symbol_table.go", "Productions", "t.productions.table.All()", "collection"), "added to a set"),
   (("internal/generate/golang/golang.go", "generateLexer", "groups.All()", "collection"), "red-black tree keyed by state: in-order iteration"),
   (("internal/generate/golang/golang.go", "generateLexer", "group.All()", "collection"), "red-black tree keyed by state: in-order iteration"),
-  (("internal/generate/golang/golang.go", "groupDFAStates", "dfa.Transitions()", "collection"), "red-black trees keyed by state and symbol: in-order iteration")]
+  (("internal/generate/golang/golang.go", "groupDFAStates", "dfa.Transitions()", "collection"), "red-black trees keyed by state and symbol: in-order iteration"),
+  (("internal/regex/parser/ast/ast.go", "Parse", "a.follows", "map"), "every follow list is sorted in place on its own: the order of the visits is immaterial"),
+  (("internal/regex/parser/ast/ast.go", "ToDFA", "a.charToPos", "map"), "only the numbering of the states of the direct-route automaton depends on it; that automaton is minimised afterwards and is not used by the command-line tool (its language is C10's subject)")]
 
 /-- **Tie**: the unordered loops in the source are exactly the classified ones. -/
 theorem C15_loops_classified : Gen.Unordered.loops = classified.map (·.1) := rfl
